@@ -1,3 +1,4 @@
+import Gotree.Model.Core
 /-
   C18 — determinism.  Models of the map-range sites of /repo (table (c), Gen/C18Sites.lean).
 
@@ -208,6 +209,14 @@ def renameLoop (index : List (String × Nat)) (names : Nat → String) (l : List
     | some id => fun i => if i == id then e.2 else nm i
     | none => nm) names
 
+/-- a variant of `renameLoop` in which the loop also records each renamed node under its NEW name in the
+    node index (`nodeindex.AddNode(node)`, the seeded change C18-1): a later entry whose old name is that new
+    name then finds the node again -/
+def renameLoopReindex (index : List (String × Nat)) (names : Nat → String) (l : List (String × String)) : Nat → String :=
+  (l.foldl (fun (st : List (String × Nat) × (Nat → String)) e => match get st.1 e.1 with
+    | some id => (put st.1 e.2 id, fun i => if i == id then e.2 else st.2 i)
+    | none => st) (index, names)).2
+
 /-! ## mutations -/
 
 /-- `MutationList.Append`: `none` = error "already exist" (the partial result is dropped by every caller) -/
@@ -232,6 +241,43 @@ def charDistLoop (cd : List (Char × Nat)) (l : List (Char × Nat)) : List (Char
 
 def charDist (cd : List (Char × Nat)) (l : List (Char × Nat)) : Char → Option Nat :=
   fun c => get (charDistLoop cd l) c
+
+/-- what `CountMutations` records for a branch whose two ends differ at the site -/
+structure MutObs where
+  child : String
+  parent : Char
+  cur : Char
+  ntips : Nat
+  nid : Nat
+  deriving BEq, DecidableEq, Repr
+
+/- `mutations.countMutationSiteBranch` for one alignment site, on the rose tree.  `charOf`: the
+   character of a node (by name) at the site; `ord`: the order in which Go iterates the character
+   distribution returned for a child (an arbitrary re-listing of that map).
+   Result: (number of tips below, character distribution below, mutation records of the subtree). -/
+mutual
+def cmsNode (charOf : String → Char) (ord : List (Char × Nat) → List (Char × Nat)) (prevChar : Option Char) :
+    T → Nat × List (Char × Nat) × List MutObs
+  | .node d _ kids =>
+    let cur := charOf d.name
+    let r := if kids.isEmpty then (1, [(cur, 1)], []) else cmsKids charOf ord cur (0, [], []) kids
+    let nid := (get r.2.1 cur).getD 0
+    let ms := match prevChar with
+      | some p => if p != cur then r.2.2 ++ [⟨d.name, p, cur, r.1, nid⟩] else r.2.2
+      | none => r.2.2
+    (r.1, r.2.1, ms)
+def cmsKids (charOf : String → Char) (ord : List (Char × Nat) → List (Char × Nat)) (cur : Char)
+    (acc : Nat × List (Char × Nat) × List MutObs) : Kids → Nat × List (Char × Nat) × List MutObs
+  | [] => acc
+  | (_, t) :: r =>
+    let c := cmsNode charOf ord (some cur) t
+    cmsKids charOf ord cur (acc.1 + c.1, charDistLoop acc.2.1 (ord c.2.1), acc.2.2 ++ c.2.2) r
+end
+
+/-- `CountMutations` for one site (the root has no parent; a root with a single neighbour is a tip for Go) -/
+def countMutationsSite (charOf : String → Char) (ord : List (Char × Nat) → List (Char × Nat)) (t : T) : List MutObs :=
+  match t with
+  | .node d p kids => if kids.length == 1 then [] else (cmsNode charOf ord none (.node d p kids)).2.2
 
 /-- key of the EEM table `"%d-%c-%c"` (site, parent, child): kept as the triple -/
 abbrev EemKey := Nat × Char × Char
